@@ -199,6 +199,12 @@ fn supervise(mode: &str, inp: &str, out: &str, jobs: usize, stall_s: u64) {
 
 fn main() {
     let args: Vec<String> = std::env::args().collect();
+    if args.len() >= 2 && args[1] == "once" {
+        panic::set_hook(Box::new(|info| {
+            let msg = info.to_string();
+            LAST_PANIC.with(|p| *p.borrow_mut() = msg);
+        }));
+    }
     if args.len() < 2 {
         eprintln!("usage: vh run <mode> <in> <out> [jobs] [stall_s] | vh worker ... | vh corpus <out> | vh polkadot <metadata> <out> <seed> <n> <maxsize>");
         std::process::exit(2);
@@ -225,6 +231,7 @@ fn main() {
                 std::process::exit(3);
             }
         }
+        "once" => run_gen::once_main(),
         "corpus" => run_misc::corpus(&args[2]),
         "polkadot" => run_misc::polkadot(
             &args[2],
